@@ -67,6 +67,51 @@ P = {
   text="For every tracker state with hole/data sizes <= 16 and every offset/size <= 40: add is exactly set union, refused only when more than MAX disjoint ranges would be needed and then leaves the tracker bit-identical, touching ranges merge, remove_front shifts by what it returns, add_then_remove_front never fails at offset 0, iter_data/peek_front/is_empty agree; MAX = 4 and 3 in the quick tier, 8 in the thorough tier.",
   note="MAX = 32 not reached (solver budget); sizes above the bounds outside.",
   ref="DESIGN.md 5/C15"),
+ "C03": dict(
+  tech="no-panic / termination obligations (Kani's implicit panic, bounds, overflow and unwinding assertions) on every ingress entry point driven with arbitrary bytes or byte templates: process_ip/process_ethernet/process_ieee802154-level harnesses, all wire parsers (shared with C07), DNS/DHCP socket process(), 6LoWPAN decompression and reassembly, tcp::Socket::process from arbitrary invariant states; an echo request answered after a fragment history",
+  text="Per ingress path, decided by the solver for all inputs within the bound: IPv4 and IPv6 packets with every header byte free (raw-IP medium, one socket), Ethernet frames with free header, every checked wire view and Repr::parse on arbitrary bytes up to the per-type bound (C07's harnesses), DNS responses of 25 record layouts and free name bytes, DHCP messages of ten layouts, 6LoWPAN IPHC/NHC prefixes with free bytes and FRAG1/FRAGN headers with any size/offset/addressing, IPv4 reassembly with offsets beyond the buffer, TCP segments in any synchronized state: no panic, no arithmetic overflow, no out-of-bounds access, every loop terminates within its unwinding bound; after two symbolic fragments an echo request is still answered.",
+  note="Decomposed per entry point and per single frame from arbitrary (invariant) state rather than over whole frame sequences; Interface::poll's loop over sockets is exercised with one socket. Frame lengths are bounded per harness (20-96 bytes), not the 1500-byte MTU. Several remotely triggerable panics found this way were fixed (known_findings.json).",
+  ref="DESIGN.md 5/C03, 14"),
+ "C06": dict(
+  tech="emit-then-parse and parse-then-emit round-trip harnesses per Repr type and per concrete shape with every field value symbolic, emitting into a zeroed and into a garbage buffer and comparing them at a symbolic index",
+  text="For Ethernet, ARP, IPv4, IPv6 and its extension headers/options, ICMPv4, ICMPv6 incl. NDISC (all five messages, all option kinds) and MLD, IGMP, UDP, TCP (every option combination the stack emits, SACK ranges), DHCPv4 (client and server shapes), DNS queries, IEEE 802.15.4, 6LoWPAN IPHC / UDP-NHC / fragment headers: buffer_len() equals the bytes written, emit writes every byte of its region (same result on a dirty buffer), new_checked accepts the emitted bytes and parse returns exactly the emitted representation; for arbitrary bytes that parse, parse(emit(parse(b))) == parse(b).",
+  note="Payload lengths bounded per harness (0-8 bytes; DHCP option lists by shape); checksums ignored here (C08). Two known findings (DHCP renew/rebind durations never emitted; 802.15.4-2015 PAN-id compression with two extended addresses). 13 defects fixed.",
+  ref="DESIGN.md 5/C06, 14"),
+ "C07": dict(
+  tech="arbitrary-bytes harnesses: symbolic buffer of symbolic length <= N per wire type, new_checked, then every read accessor applicable to the message type, Repr::parse, and (bounded) the pretty printer; termination by unwinding assertions (opts=term); one-step harness over all iterator states for DNS parse_name",
+  text="For every byte string up to the per-type bound (Ethernet 20, ARP 40, IPv4 32, IPv6 48, extension headers/options 12-28, ICMPv4 44, every ICMPv6/NDISC/MLD message type 32-56, UDP 32, TCP 30 with option walks, DHCP 240+6 option bytes and shaped option lists, DNS 28-32, IEEE 802.15.4 40 incl. the auxiliary security header, 6LoWPAN frag/IPHC/NHC 12-44): a failed check returns Err, and after a successful check no accessor, Repr::parse or option/name iterator panics, overflows, reads outside the buffer or fails to terminate.",
+  note="Lengths above the per-type bounds (up to 2048 in the property) are outside; whole parse_name iterations rest on the one-step harness plus the (|packet|,|bytes|) measure argument in the harness comments; nested pretty printers (ICMPv4 in IPv4 etc.) only in the thorough tier or not reached (stated in wire_views.rs). Three defects fixed.",
+  ref="DESIGN.md 5/C07, 14"),
+ "C08": dict(
+  tech="equivalence of checksum::data/combine/pseudo_header with an independent RFC 1071 reference on symbolic buffers; emit-then-verify-with-reference per protocol; accept-implies-valid and reject-invalid harnesses on corrupted packets; interface-level drop-without-effect harnesses",
+  text="checksum::data equals the RFC 1071 reference for every content, every length <= 12 (<= 24 thorough) and start offset 0..3, is additive over every even split, combine is one's-complement addition; every emitted IPv4 header, ICMPv4, ICMPv6, UDP (v4/v6, zero sent as ffff) and TCP (three option shapes, v4/v6) packet verifies under the reference; a packet that parses with checksums on verifies under the reference and any 1-2 byte corruption that breaks the reference checksum is rejected; with rx checksums off any field is accepted, with tx off the field is zero; a UDP/TCP/ICMP packet with a bad checksum delivered to the interface changes no socket and produces no reply.",
+  note="Symbolic words per harness are limited (3-9) because checksums over many symbolic words are SAT-hard; lengths beyond 24 bytes outside. One known finding: a zero UDP checksum over IPv6 is accepted.",
+  ref="DESIGN.md 5/C08, 14"),
+ "C12": dict(
+  tech="one-step induction over PacketAssembler/PacketAssemblerSet states for reassembly, the real dispatch_ip/dispatch_ipv4_frag/ipv4_egress on a size grid with a capturing device for transmit, busy-fragmenter harnesses through poll_egress",
+  text="Transmit: for a grid of (MTU, payload) pairs with symbolic payload bytes every fragment is a well-formed IPv4 packet within the MTU, offsets are multiples of 8 and contiguous, MF is set on all but the last, ident/addresses/protocol are shared, header checksums are valid and the concatenated payloads equal the datagram; a datagram too big for the buffer is dropped whole; a second oversized datagram never overwrites one in flight. Receive: from any assembler state one more fragment (any offset/length/MF) yields exactly the bytes offered at their offsets or nothing, completion only when every byte is present, expiry and key matching as specified; through process_ipv4 for fixed orders plus one arbitrary fragment.",
+  note="Reassembly/fragmentation buffers 256 (64 in KI4r) bytes, 2 reassembly slots, <= 3 fragments on transmit; any-order sequences longer than the one-step harness are carried by the induction, not enumerated.",
+  ref="DESIGN.md 5/C12, 14"),
+ "C13": dict(
+  tech="per-component schedule obligations with symbolic clocks: for each timer-owning component (tcp, dhcpv4, dns sockets, socket Meta neighbor back-off, SLAAC, fragmenter, Interface::poll_at merge) a step harness from arbitrary invariant state comparing poll_at with what a poll at a symbolic instant does",
+  text="Sufficiency: from any state, a poll strictly before the reported poll_at sends nothing and changes no protocol state. Non-spinning: after a poll at the reported instant on an accepting device, poll_at is None or strictly later (no zero-delay loop), for TCP timers, DHCP discovery/renewal, DNS retransmit/timeout, neighbor-discovery back-off, SLAAC solicitations and prefix/route expiry; Interface::poll_at is the minimum of its components.",
+  note="MLD/IGMP report scheduling is outside (joins are announced by the next poll and not scheduled through poll_at). Components are composed by the min-merge harness, not by whole-interface runs. Six defects fixed.",
+  ref="DESIGN.md 5/C13, 14"),
+ "C16": dict(
+  tech="model-based one-step checks of neighbor::Cache and Routes against ghost models (API-prefix states), and of lookup_hardware_addr / dispatch_ip / process_arp / process_ndisc on a real Ethernet Interface with symbolic destination, gateways, cache contents and instants",
+  text="Route lookup is the gateway of the longest live matching prefix; a cache lookup returns only a hardware address filled for exactly that address less than 60 s ago, eviction removes the oldest entry; a unicast packet is transmitted only to the hardware address cached for its next hop, on a miss only a well-formed ARP request / neighbor solicitation goes out, at most one per second (inductive argument on silent_until), and socket data stays queued; the cache is filled only from ARP/NDISC messages that pass the RFC 826 / RFC 4861 validity checks (all 28 ARP bytes symbolic).",
+  note="3-slot cache with fixed keys inside the Interface (symbolic keys in the stand-alone cache harness), <= 2 routes; IPv6 sender not yet in the cache and the NDISC hop-limit gate are outside (stated). One defect fixed.",
+  ref="DESIGN.md 5/C16, 14"),
+ "C19": dict(
+  tech="one process()/dispatch()/poll_at step of dns::Socket from an arbitrary pending-query state on RFC 1035 byte-template responses (25 record layouts, symbolic field values) against an independent name-comparison reference; free-byte harnesses for the name parsers",
+  text="A query completes only from a response from port 53 (or the mDNS port) to the query's port, with its transaction id, QR set and the question repeated, and only with the addresses of records of the requested type owned by the queried name or the end of its CNAME chain, in order; any other response leaves the query unchanged (identity, name, timers); NXDomain or an answer without a usable record fails it; retransmission delays double from 1 s to the 10 s cap, fail-over to the next server happens exactly at the 10 s timeout, and the query fails when servers are exhausted; the name iterator terminates on any bytes including pointer loops.",
+  note="Names of two one-byte labels in the query, <= 2 answer records, 2 servers, 1 query slot; fields that decide parser errors are concrete per layout (enumerated). Three defects fixed.",
+  ref="DESIGN.md 5/C19, 14"),
+ "C20": dict(
+  tech="byte-template comparison of the real IPHC/NHC compression (compressed_packet_size + the emit calls ipv6_to_sixlowpan makes) and decompression (sixlowpan_to_ipv6) for enumerated shapes with all field values symbolic; dispatch_ieee802154_frag and process_sixlowpan_fragment one-call harnesses",
+  text="For ten address/port shapes in the quick tier (link-local derived from short/extended link addresses, global, multicast 8/32/48/128-bit forms, UDP ports uncompressed/8-bit/4-bit, ICMPv6/UDP/TCP, in-line hop limit and next header) and 18 more in the thorough tier: the compressed bytes equal an RFC 6282 template written in the harness, the declared size equals the bytes written, and decompressing the template yields exactly the IPv6 datagram (every header byte compared at a symbolic index); FRAGN frames carry the right size/tag/offset and bytes; a FRAG1 that completes its datagram is delivered by the same call; malformed sizes and addressing are dropped without panic.",
+  note="Payload <= 4 octets; whole ipv6_to_sixlowpan / dispatch_ieee802154 calls and two-fragment reassembly sequences exceed 8 GB and are thorough-tier only (not all measured). One known finding (the in-line UDP checksum is not restored on decompression). Nine defects fixed.",
+  ref="DESIGN.md 5/C20, 14"),
 }
 
 def main():
